@@ -144,6 +144,8 @@ type Op struct {
 	W       []Write `json:"w,omitempty"`
 	Fail    bool    `json:"fail,omitempty"`    // the row callback returns an error after buffering its writes
 	Swallow bool    `json:"swallow,omitempty"` // the body ignores that error and carries on (only in transactions that end in an error)
+	// delall: the filter chain applied before Txn.DeleteAll; the executor appends one "del" per row Range visited under it
+	Chain []filterStep `json:"chain,omitempty"`
 
 	// filled in by the executor
 	Done    bool   `json:"done,omitempty"`   // the operation was issued
@@ -170,6 +172,12 @@ func (o Op) String() string {
 		}
 	case "inskey", "upskey", "qkey", "delkey":
 		s += fmt.Sprintf("(%q)", o.Key)
+	case "delall":
+		s += "("
+		for _, f := range o.Chain {
+			s += f.String() + "."
+		}
+		s += "DeleteAll)"
 	}
 	for _, w := range o.W {
 		op := "="
